@@ -175,3 +175,69 @@ pub fn backtrack_restored(base: &mut Vec<u32>, depth: u32) -> bool {
     }
     false
 }
+
+// ---- C05.8 controls: a set-operation result stored into the fragment checked next ----
+pub struct Region(pub std::collections::BTreeSet<u32>);
+impl Region {
+    pub fn diff(&self, o: &Region) -> Region {
+        Region(self.0.difference(&o.0).cloned().collect())
+    }
+}
+
+pub fn fragment_unconditional(pos: &std::collections::BTreeMap<u32, Region>, negs: &[std::collections::BTreeMap<u32, Region>]) -> bool {
+    let Some((first, rest)) = negs.split_first() else { return false };
+    for (k, n) in first {
+        let Some(p) = pos.get(k) else { continue };
+        let d = p.diff(n);
+        if !d.0.is_empty() {
+            let mut frag: std::collections::BTreeMap<u32, Region> = pos.iter().map(|(k, v)| (*k, Region(v.0.clone()))).collect();
+            frag.insert(*k, d);
+            if !fragment_unconditional(&frag, rest) {
+                return false;
+            }
+        }
+    }
+    true
+}
+
+pub fn fragment_conditional(pos: &std::collections::BTreeMap<u32, Region>, negs: &[std::collections::BTreeMap<u32, Region>]) -> bool {
+    let Some((first, rest)) = negs.split_first() else { return false };
+    for (k, n) in first {
+        let Some(p) = pos.get(k) else { continue };
+        let d = p.diff(n);
+        if !d.0.is_empty() {
+            let mut frag: std::collections::BTreeMap<u32, Region> = pos.iter().map(|(k, v)| (*k, Region(v.0.clone()))).collect();
+            frag.entry(*k).and_modify(|v| *v = d); // flagged: nothing is stored when the key is absent
+            if !fragment_conditional(&frag, rest) {
+                return false;
+            }
+        }
+    }
+    true
+}
+
+// ---- C07.8 controls: building a result from the first element of a sequence ----
+pub enum Piece {
+    Lit(String),
+    Any,
+}
+pub fn prefix_truncating(items: &Vec<Piece>) -> String {
+    match items.first() {
+        Some(Piece::Lit(c)) => c.clone(), // flagged: the rest of `items` is ignored
+        _ => items.iter().map(|_| "?").collect(),
+    }
+}
+pub fn prefix_guarded(items: &Vec<Piece>) -> String {
+    if items.len() == 1 {
+        if let Some(Piece::Lit(c)) = items.first() {
+            return c.clone();
+        }
+    }
+    items.iter().map(|_| "?").collect()
+}
+pub fn prefix_with_rest(items: &Vec<Piece>) -> String {
+    match items.first() {
+        Some(Piece::Lit(c)) => format!("{}+{}", c, items[1..].len()),
+        _ => String::new(),
+    }
+}
